@@ -6,6 +6,7 @@ import DimodProofs.BKQue
 import DimodProofs.ReduceGiven
 import DimodProofs.HocOptions
 import DimodProofs.HocRecord
+import DimodProofs.PolyObject
 
 /-! # C15 — higher-order reduction is exact on consistent assignments; the penalty is never negative
 
@@ -1347,6 +1348,120 @@ example : ((samplePolyRecord (fun _ _ => witnessRespS) .spin witnessRaw [(.int 0
     pairwise different labels, one value per variable in every record -/
 example : witnessRespB.vars.Nodup ∧ (witnessRespB.rows.all (fun r => r.sample.length == witnessRespB.vars.length)) = true
     ∧ polyVars (normPoly .binary witnessRaw) = [.int 0, .int 1, .int 2] := by
+  decide +kernel
+
+/-! ## histories on ONE `BinaryPolynomial` object (round 8)
+
+`Red.PolyOp` / `Red.applyOp` / `Red.runOps` (`DimodModel/PolyObject.lean`) model the object's mutations as coded
+(`__setitem__`, `poly[t] += b`, `__delitem__` / `pop`, `popitem`, `scale`, `normalize`, with their `KeyError` /
+`ZeroDivisionError` refusals).  The reductions read the object's CURRENT terms (no per-object cache in the code), so
+"reduce → mutate → reduce the same object again" is the reduction of the state after the history: -/
+
+/-- the object stays a well-formed dict (every key duplicate-free, keys pairwise different as sets) under every history -/
+theorem poly_object_history_well_formed (vt : VT) (raw : List (List Label × Rat)) (ops : List PolyOp) (s : PolyState)
+    (h : objectAfter vt raw ops = .ok s) : TermsOK s :=
+  runOps_ok ops _ s (normPoly_ok vt raw) h
+
+/-- the reductions applied to the object itself (`_init_binary_polynomial` returns a `BinaryPolynomial` unchanged) reduce
+    exactly its current terms: they are a fixed point of the constructor's normalisation -/
+theorem poly_object_terms_fixed_point (vt : VT) (raw : List (List Label × Rat)) (ops : List PolyOp) (s : PolyState)
+    (h : objectAfter vt raw ops = .ok s) : normPoly vt s = s :=
+  normPoly_of_ok vt s (poly_object_history_well_formed vt raw ops s h)
+
+/-- **BINARY, any history**: `make_quadratic` of the SAME object after any sequence of mutations is exact, on consistent
+    assignments, for the polynomial the object denotes NOW (`polyEnergy x s`, `s` the current terms) -/
+theorem history_make_quadratic_exact (raw : List (List Label × Rat)) (ops : List PolyOp) (s : PolyState)
+    (hobj : objectAfter .binary raw ops = .ok s)
+    (reserved : List Label) (strength : Rat) (choices : List Pair) (bag : List (PTerm Label)) (st : BK) (auxs : List Label)
+    (h : makeQuadratic reserved .binary strength s choices = some (bag, st, auxs)) (hch : ∀ c ∈ choices, c.1 ≠ c.2)
+    (x : Label → Rat) (hx : ∀ l, x l ∈ [(0 : Rat), 1]) (hc : ∀ c ∈ st.constraints, x c.2 = x c.1.1 * x c.1.2) :
+    evalBag x bag = polyEnergy x s := by
+  have := make_quadratic_exact reserved strength s choices bag st auxs h hch x hx hc
+  rwa [poly_object_terms_fixed_point .binary raw ops s hobj] at this
+
+/-- **SPIN, any history** (minimised over the spin auxiliaries, as `make_quadratic_exact_spin`) -/
+theorem history_make_quadratic_exact_spin (raw : List (List Label × Rat)) (ops : List PolyOp) (s : PolyState)
+    (hobj : objectAfter .spin raw ops = .ok s)
+    (reserved : List Label) (strength : Rat) (choices : List Pair) (bag : List (PTerm Label)) (st : BK) (auxs : List Label)
+    (h : makeQuadratic reserved .spin strength s choices = some (bag, st, auxs)) (hch : ∀ c ∈ choices, c.1 ≠ c.2)
+    (x : Label → Rat) (hx : Spin01 x) (hc : ∀ c ∈ st.constraints, x c.2 = x c.1.1 * x c.1.2) :
+    ∃ x', Spin01 x' ∧ (∀ l, l ∉ auxs → x' l = x l) ∧ evalBag x' bag = polyEnergy x s := by
+  obtain ⟨x', h1, h2, h3, _⟩ := make_quadratic_exact_spin reserved strength s choices bag st auxs h hch x hx hc
+  rw [poly_object_terms_fixed_point .spin raw ops s hobj] at h3
+  exact ⟨x', h1, h2, h3⟩
+
+/-- **`make_quadratic_cqm`, any history, both vartypes** -/
+theorem history_make_quadratic_cqm_exact (vt : VT) (raw : List (List Label × Rat)) (ops : List PolyOp) (s : PolyState)
+    (hobj : objectAfter vt raw ops = .ok s)
+    (reserved : List Label) (choices : List Pair) (obj : List (PTerm Label)) (cons : List (String × List (PTerm Label)))
+    (h : makeQuadraticCqm reserved vt s choices = some (obj, cons)) (hch : ∀ c ∈ choices, c.1 ≠ c.2)
+    (x : Label → Rat) (hfeas : ∀ c ∈ cons, evalBag x c.2 = 0) :
+    evalBag x obj = polyEnergy x s := by
+  have := make_quadratic_cqm_exact reserved vt s choices obj cons h hch x hfeas
+  rwa [poly_object_terms_fixed_point vt raw ops s hobj] at this
+
+/-- `poly.scale(c)`: the polynomial is multiplied by `c` — at every assignment -/
+theorem poly_object_scale_energy (x : Label → Rat) (c : Rat) (s : PolyState) :
+    polyEnergy x (scaleTerms c [] s) = c * polyEnergy x s := scaleTerms_energy x c s
+
+/-- `poly.scale(c, ignored_terms)`: the ignored terms keep their bias, the others are multiplied -/
+theorem poly_object_scale_ignored_energy (x : Label → Rat) (c : Rat) (ig : List LTerm) (s : PolyState) :
+    polyEnergy x (scaleTerms c ig s)
+      = c * polyEnergy x (s.filter (fun e => !isIgnored ig e.1)) + polyEnergy x (s.filter (fun e => isIgnored ig e.1)) :=
+  scaleTerms_energy_split x c ig s
+
+/-- `poly.normalize(...)` is a `scale` (by `1 / inv_scalar`), no change, or a `ZeroDivisionError` -/
+theorem poly_object_normalize_is_scale (s s' : PolyState) (rg : Ranges) (ig : List (List Label))
+    (h : applyOp s (.normalize rg ig) = .ok s') :
+    s' = s ∨ s' = scaleTerms (1 / invScalar rg (ig.map asKey) s) (ig.map asKey) s := by
+  simp only [applyOp] at h
+  split at h
+  · simp at h
+  · split at h
+    · simp only [Except.ok.injEq] at h; exact Or.inl h.symm
+    · simp only [Except.ok.injEq] at h; exact Or.inr h.symm
+
+/-- `poly[t] = b` on a well-formed object: the old contribution of the term (0 when absent) is replaced by `b·∏t` -/
+theorem poly_object_setitem_energy (x : Label → Rat) (s : PolyState) (hs : TermsOK s) (t : List Label) (b : Rat) :
+    polyEnergy x (objSet s (asKey t) b)
+      = polyEnergy x s - (objGet s (asKey t)).getD 0 * termVal x (asKey t) + b * termVal x (asKey t) :=
+  objSet_energy x s hs (asKey t) (asKey_nodup t) b
+
+/-- `del poly[t]` / `poly.pop(t)` on a well-formed object removes the term's contribution -/
+theorem poly_object_delitem_energy (x : Label → Rat) (s : PolyState) (hs : TermsOK s) (t : List Label) :
+    polyEnergy x (objDel s (asKey t)) = polyEnergy x s - (objGet s (asKey t)).getD 0 * termVal x (asKey t) :=
+  objDel_energy x s hs (asKey t) (asKey_nodup t)
+
+/-- refusals: `poly[t] += b`, `del poly[t]`, `poly.pop(t)` raise `KeyError` exactly when the term is absent;
+    `popitem` exactly on the empty polynomial; `normalize` divides by zero exactly when a range bound is 0 -/
+theorem poly_object_refuses_iff (s : PolyState) :
+    (∀ t b, applyOp s (.addItem t b) = .error .keyError ↔ objGet s (asKey t) = none)
+    ∧ (∀ t, applyOp s (.delItem t) = .error .keyError ↔ objGet s (asKey t) = none)
+    ∧ (applyOp s .popItem = .error .keyError ↔ s = [])
+    ∧ (∀ rg ig, applyOp s (.normalize rg ig) = .error .zeroDivision ↔ (rg.linLo = 0 ∨ rg.linHi = 0 ∨ rg.polyLo = 0 ∨ rg.polyHi = 0))
+    ∧ (∀ t b, ∃ s', applyOp s (.setItem t b) = .ok s') ∧ (∀ c ig, ∃ s', applyOp s (.scale c ig) = .ok s') := by
+  refine ⟨?_, ?_, ?_, ?_, ?_, ?_⟩
+  · intro t b; simp only [applyOp]; cases objGet s (asKey t) <;> simp
+  · intro t; simp only [applyOp]; cases objGet s (asKey t) <;> simp
+  · cases s <;> simp [applyOp]
+  · intro rg ig; simp only [applyOp]
+    split
+    · rename_i h0; simp [h0]
+    · rename_i h0; split <;> simp [h0]
+  · intro t b; exact ⟨_, rfl⟩
+  · intro c ig; exact ⟨_, rfl⟩
+
+/-- a history with every kind of mutation that succeeds: `2abc − 3/2·abd + a/2 + 1/4`, scaled by 2, `abc := −3/4` (spelled
+    `b, a, c`), constant `+= 1`, `a` deleted, normalised to [−1, 1] (inv_scalar = 3): the object is `−abc/4 − abd + 1/2` — by kernel evaluation; so the
+    hypothesis `objectAfter … = .ok s` of the history theorems is met by a history with every kind of mutation -/
+example : (objectAfter .binary [([.str "a", .str "b", .str "c"], 1), ([.str "a", .str "b", .str "d"], -3/2), ([.str "a"], 1/2), ([], 1/4)]
+      [.scale 2 [], .setItem [.str "b", .str "a", .str "c"] (-3/4), .addItem [] 1, .delItem [.str "a"],
+       .normalize { linLo := -1, linHi := 1, polyLo := -1, polyHi := 1 } []]).toOption
+    = some [([.str "a", .str "b", .str "c"], -1/4), ([.str "a", .str "b", .str "d"], -1), ([], 1/2)] := by
+  decide +kernel
+
+example : (applyOp [([.int 0, .int 1], (1 : Rat))] (.delItem [.int 2])).toOption = none
+    ∧ (applyOp [([.int 0, .int 1], (1 : Rat))] (.addItem [.int 1, .int 0] 2)).toOption = some [([.int 0, .int 1], 3)] := by
   decide +kernel
 
 end C15
